@@ -29,7 +29,7 @@ ASSUMPTIONS = ["only layouts that the two formats define and Basis Set Exchange 
 ELEMENTS = ["H", "He", "Li", "C", "N", "O", "Ne", "Na", "Cl", "Kr", "U"]
 LETTERS = "SPDFGHIK"
 EXPECTED_CLASSES = ["nwchem/header-0", "nwchem/header-1", "gbs/header-0", "gbs/header-1", "nwchem/sp-shell", "gbs/sp-shell",
-                    "gbs/merged-generalized"]
+                    "gbs/merged-generalized", "nwchem/line-inside-shell"]
 
 
 @st.composite
